@@ -65,3 +65,21 @@ def text_triggers(text):
     """Triggers that can be decided on raw text (C10/C20 inputs are arbitrary strings)."""
     keys = []
     return keys
+
+
+def roundtrip_triggers(t):
+    keys = list(parse_triggers(t))
+    for n in T.walk(t):
+        if n[0] == "lit" and n[1] == "str" and "'" in n[2]:
+            keys.append("roundtrip-string-quote")
+        if n[0] == "list" and len(n[1]) == 1:
+            keys.append("roundtrip-singleton-list")
+        if n[0] == "lit" and n[1] == "geo":
+            keys.append("roundtrip-geography")
+        if n[0] == "np":
+            keys.append("roundtrip-namedparam")
+        if n[0] in ("bin", "cmp", "bool") and n[1] != "in":
+            r = n[3]
+            if r[0] in ("bin", "cmp", "bool") and T.level(r) == T.level(n):
+                keys.append("roundtrip-right-nested-equal-precedence")
+    return keys
